@@ -313,19 +313,22 @@ structure RMode where
   lim : Nat              -- recursion is refused when depth ≥ lim
   leaveActive : Bool     -- true: a reference to an object being resolved is left (Reader);
                          -- false: it is a "circular reference" error (resolver)
+  needAware : Bool := false  -- true: a shared result is refused where resolving the reference
+                         -- again would pass the limit (resolver since 48aa74b)
   deriving Repr
 
 /-- `reader.(*Reader).ResolveDeep`: `depth > 2000` is the error -/
-def readerMode : RMode := ⟨2001, true⟩
+def readerMode : RMode := ⟨2001, true, false⟩
 /-- `resolver.(*ObjectResolver).ResolveDeep` with `maxDepth = m`: `currentDepth >= m` is the error -/
-def resolverMode (m : Nat) : RMode := ⟨m, false⟩
+def resolverMode (m : Nat) : RMode := ⟨m, false, true⟩
 
 /-- the memo table and the log of `ResolveReference` calls (newest first), and the number of
 activations of `resolveDeep` -/
 structure RSt where
-  done : List (Nat × RV)
+  done : List (Nat × RV × Nat)   -- result and `need`: the levels below the reference its resolution took
   fetched : List Nat
   calls : Nat
+  reach : Nat := 0               -- `r.reach`: deepest level seen since the innermost reference was entered
   deriving Repr
 
 /-- run `f` over the items left to right, threading the state, stopping at the first error -/
@@ -343,7 +346,7 @@ def seqList (f : RV → RSt → Except RErr RV × RSt) : List RV → RSt → Exc
 def resolveDeep (g : RGraph) (m : RMode) : Nat → List Nat → Nat → RV → RSt → Except RErr RV × RSt
   | 0, _, _, _, st => (.error .fuel, st)
   | fuel + 1, active, depth, v, st =>
-    let st := { st with calls := st.calls + 1 }
+    let st := { st with calls := st.calls + 1, reach := max st.reach depth }
     if depth ≥ m.lim then (.error .tooDeep, st)
     else match v with
       | .leaf t => (.ok (.leaf t), st)
@@ -353,7 +356,9 @@ def resolveDeep (g : RGraph) (m : RMode) : Nat → List Nat → Nat → RV → R
          | (.ok vs, st') => (.ok (.arr vs), st'))
       | .ref n =>
         match lookupL st.done n with
-        | some res => (.ok res, st)
+        | some (res, need) =>
+          if m.needAware && decide (depth + need ≥ m.lim) then (.error .tooDeep, st)
+          else (.ok res, { st with reach := max st.reach (depth + need) })
         | none =>
           if active.contains n then
             (if m.leaveActive then (.ok (.ref n), st) else (.error .circular, st))
@@ -362,13 +367,14 @@ def resolveDeep (g : RGraph) (m : RMode) : Nat → List Nat → Nat → RV → R
             match lookupL g n with
             | none => (.error .missing, st)
             | some target =>
-              match resolveDeep g m fuel (n :: active) (depth + 1) target st with
+              match resolveDeep g m fuel (n :: active) (depth + 1) target { st with reach := depth } with
               | (.error e, st') => (.error e, st')
-              | (.ok res, st') => (.ok res, { st' with done := (n, res) :: st'.done })
+              | (.ok res, st') =>
+                (.ok res, { st' with done := (n, res, st'.reach - depth) :: st'.done, reach := max st'.reach st.reach })
 
 /-- a top-level call: fresh memo table, depth 0 -/
 def resolveDeepTop (g : RGraph) (m : RMode) (v : RV) : Except RErr RV × RSt :=
-  resolveDeep g m (m.lim + 1) [] 0 v ⟨[], [], 0⟩
+  resolveDeep g m (m.lim + 1) [] 0 v ⟨[], [], 0, 0⟩
 
 /-- the keys of the graph, each once -/
 def RGraph.keys (g : RGraph) : List Nat := (g.map Prod.fst).eraseDups
